@@ -543,7 +543,7 @@ st_prio = st.fixed_dictionaries({"setting": st.sampled_from(["save_traj_in_zip",
                                  "value": st.sampled_from([True, "excel", [4, 3]])}).filter(
     lambda c: type(DEFAULT_SETTINGS_DICT[c["setting"]]) is type(c["value"]))
 from vf.checks.c01 import st_cli as _st_cli
-st_effect = _st_cli.filter(lambda c: c["fmt"] == "tum").map(lambda c: {"data": c["data"], "opts": c["opts"]})
+st_effect = _st_cli().filter(lambda c: c["fmt"] == "tum").map(lambda c: {"data": c["data"], "opts": c["opts"]})
 
 
 def _nt_gen(c):
